@@ -285,39 +285,83 @@ def class_test(t, cls):
     raise ValueError(txt)
 
 
+def matches_with_helpers(ix, module, fn):
+    """`match` statements of fn, and of module-level helpers it calls with the helper's parameters replaced by the
+    call's arguments (a shared lowering such as helper("add", builder.add, builder.fadd, left, right, builder))."""
+    import copy
+
+    tree = ix.module(module)
+    helpers = {f.name: f for f in tree.body if isinstance(f, ast.FunctionDef) and not f.decorator_list}
+    out = [n for n in ast.walk(fn) if isinstance(n, ast.Match)]
+    for call in [n for n in ast.walk(fn) if isinstance(n, ast.Call) and isinstance(n.func, ast.Name) and n.func.id in helpers]:
+        h = helpers[call.func.id]
+        params = [a.arg for a in h.args.posonlyargs + h.args.args]
+        binding = dict(zip(params, call.args))
+        binding.update({k.arg: k.value for k in call.keywords if k.arg})
+
+        class Subst(ast.NodeTransformer):
+            def visit_Name(self, n):
+                if isinstance(n.ctx, ast.Load) and n.id in binding and not isinstance(binding[n.id], ast.Name):
+                    return copy.deepcopy(binding[n.id])
+                return n
+
+        body = Subst().visit(copy.deepcopy(ast.Module(body=h.body, type_ignores=[])))
+        out.extend(n for n in ast.walk(body) if isinstance(n, ast.Match))
+    return out
+
+
 def rule_operator_tables(ctx, ix):
     ctx.rule("C06.operator-table", "C token / LLVM opcode, operand order, predicates and conversions agree per IR class", min_instances=30)
     cimpl = registered_impl(ix, C_MOD, "ir_to_c_expression")
     limpl = registered_impl(ix, L_MOD, "ir_to_llvm_expression")
-    # --- C side
+    # --- C side: the printer is evaluated abstractly on Cls(a, b) and the printed text is read back
+    from . import symeval as S
+
+    try:
+        _G, dispatch = c_printer_env(ix)
+    except S.Uninterpretable as ex:
+        raise AnalysisError(f"C printer environment not interpretable: {ex}") from ex
+
+    def var(n):
+        return S.Obj("Variable", name=n, __bases__=("Assignable", "Expression"))
+
     for cls, (kind, tok) in C_TOKENS.items():
         ctx.instance("C06.operator-table")
         key = f"codegen/_ir_to_c.py:ir_to_c_expression:{cls}"
-        fn = cimpl.get(cls)
-        shape = fstring_shape(fn) if fn is not None else None
-        if not shape:
-            ctx.fail("C06.operator-table", key, "printer is not a single f-string return; cannot extract its token")
+        if cls not in cimpl:
+            ctx.fail("C06.operator-table", key, "no C printer registered for the class")
             continue
-        fields = [s[1] for s in shape if s[0] == "field"]
-        lits = [s[1] for s in shape if s[0] == "lit"]
-        if kind == "bin":
-            if fields == ["left", "right"] and [l.strip() for l in lits] == [tok] and shape[0][0] == "field" and shape[-1][0] == "field":
-                ctx.ok("C06.operator-table", key)
+        try:
+            text = dispatch(S.Obj(cls, left=var("a"), right=var("b"), __bases__=("Expression",)))
+            if not isinstance(text, str):
+                raise ValueError(f"printer returned {text!r}")
+            if kind == "bin":
+                got = c_parse(text)
+                good = got == (tok, "a", "b")
             else:
-                ctx.fail("C06.operator-table", key, f"{cls} prints {lits} over operands {fields}; its C meaning needs `left {tok} right`")
+                got = re.sub(r"\s+", "", text)
+                good = got == f"{tok}(a,b)"
+        except (S.Uninterpretable, S.Raised, S.Fork, ValueError) as ex:
+            ctx.fail("C06.operator-table", key, f"C printer not interpretable on {cls}(a, b): {ex}")
+            continue
+        if good:
+            ctx.ok("C06.operator-table", key)
+        elif kind == "bin":
+            ctx.fail("C06.operator-table", key, f"{cls}(a, b) prints `{text}`; its C meaning needs `left {tok} right`")
         else:
-            if fields == ["left", "right"] and lits and lits[0] == f"{tok}(" and lits[-1] == ")" and [l.strip() for l in lits[1:-1]] == [","]:
-                ctx.ok("C06.operator-table", key)
-            else:
-                ctx.fail("C06.operator-table", key, f"{cls} prints {lits} over operands {fields}; expected {tok}(left, right)")
+            ctx.fail("C06.operator-table", key, f"{cls}(a, b) prints `{text}`; expected {tok}(left, right)")
     # BooleanToInteger
     ctx.instance("C06.operator-table")
     key = f"codegen/_ir_to_c.py:ir_to_c_expression:BooleanToInteger"
-    shape = fstring_shape(cimpl["BooleanToInteger"]) if "BooleanToInteger" in cimpl else None
-    if shape and [s[1] for s in shape if s[0] == "lit"] == ["(int32_t)(", ")"] and [s[1] for s in shape if s[0] == "field"] == ["expression"]:
-        ctx.ok("C06.operator-table", key)
-    else:
-        ctx.fail("C06.operator-table", key, f"boolean cast printed as {shape}")
+    try:
+        text = dispatch(S.Obj("BooleanToInteger", expression=var("a"), __bases__=("Expression",)))
+        good = isinstance(text, str) and re.sub(r"\s+", "", text) in ("(int32_t)(a)", "(int32_t)a", "((int32_t)(a))", "((int32_t)a)")
+        if good:
+            ctx.ok("C06.operator-table", key)
+        else:
+            ctx.fail("C06.operator-table", key, f"boolean cast printed as `{text}`")
+    except (S.Uninterpretable, S.Raised, S.Fork, ValueError) as ex:
+        ctx.fail("C06.operator-table", key, f"C printer not interpretable on BooleanToInteger(a): {ex}")
     # macros: tie goes to the right operand: ((_a) < (_b) ? (_a) : (_b))
     hdr = module_string(ix, "tensora.compile._compile_cffi", "taco_define_header")
     for name, op in (("TACO_MIN", "<"), ("TACO_MAX", ">")):
@@ -358,13 +402,13 @@ def rule_operator_tables(ctx, ix):
         if fn is None:
             ctx.fail("C06.operator-table", key0, "no implementation")
             continue
-        for node in ast.walk(fn):
-            if not isinstance(node, ast.Match):
-                continue
+        n_cases = 0
+        for node in matches_with_helpers(ix, L_MOD, fn):
             for case in node.cases:
                 p = case.pattern
                 if not (isinstance(p, ast.MatchSequence) and len(p.patterns) == 2 and all(isinstance(q, ast.MatchClass) for q in p.patterns)):
                     continue
+                n_cases += 1
                 kinds = tuple({"IntType": "int", "DoubleType": "float", "PointerType": "ptr"}.get(q.cls.attr, "?") for q in p.patterns)
                 ctx.instance("C06.operator-table")
                 key = f"{key0}:{kinds}"
@@ -395,6 +439,9 @@ def rule_operator_tables(ctx, ix):
                     ctx.ok("C06.operator-table", key)
                 else:
                     ctx.fail("C06.operator-table", key, f"{cls} on {kinds} emits {ast.unparse(ret)} with conversions {conv}; C computes left {C_TOKENS[cls][1]} right with the int side converted to double")
+        if n_cases == 0:
+            ctx.instance("C06.operator-table")
+            ctx.fail("C06.operator-table", key0, f"lowering of {cls} not interpretable: no operand-type cases found in the function or the helpers it calls")
     # And / Or short circuit
     for cls, const, order in (("And", 0, ("right_block", "end_block")), ("Or", 1, ("end_block", "right_block"))):
         ctx.instance("C06.operator-table")
